@@ -32,6 +32,12 @@ THEOREMS = [
     "Qentem.Props.C10.format_eq_spec_short_fractions",
     "Qentem.Props.C10.format_eq_spec_integers_default",
     "Qentem.Props.C10.format_eq_spec_integers_default_all",
+    "Qentem.Props.C10.format_eq_spec_fixed_ge1",
+    "Qentem.Props.C10.format_eq_spec_default_large",
+    "Qentem.Props.C10.format_eq_spec_default_ge1",
+    "Qentem.Props.C10.format_eq_spec_ge1",
+    "Qentem.Props.C10.format_eq_spec_fixed_all",
+    "Qentem.Props.C10.format_eq_spec_double",
     "Qentem.Props.C10.digit_estimate_exact",
     "Qentem.Props.C10.digits_exact_or_sticky",
     "Qentem.Props.C10.digits_exact_or_sticky32",
